@@ -10,7 +10,7 @@ from ..dataflow import bind_call, chain_key, fmt_origin, origins
 from ..decide import Decider, LoopFacts, expand_expr, role_of
 from ..loader import AnalysisError, ConstInfo, FuncInfo
 from ..report import Ctx
-from .common import all_guards, call_name, deep_origins, direct_guards, factory_closure, norm, where
+from .common import all_guards, base_call_predicate, call_name, deep_origins, direct_guards, factory_closure, norm, where
 
 TW = "flowmark.linewrapping.text_wrapping"
 LW = "flowmark.linewrapping.line_wrappers"
@@ -204,6 +204,13 @@ def check_sentence_lines(ctx: Ctx) -> None:
                             continue
                         if isinstance(p, ast.Attribute) and p.attr == "extend":
                             continue
+                        # truthiness (`if lines and ...`, `not lines`): the same information as len(lines) > 0
+                        if isinstance(p, (ast.BoolOp, ast.If, ast.While, ast.IfExp)) or (isinstance(p, ast.UnaryOp) and isinstance(p.op, ast.Not)) \
+                                or (isinstance(p, ast.Call) and isinstance(p.func, ast.Name) and p.func.id == "bool"):
+                            if not (isinstance(p, ast.IfExp) and sub is not p.test):
+                                continue
+                        if n.kind == "test" and sub is n.ast:
+                            continue
                         bad.append(norm(p)[:40])
         ctx.ob("R-SENT", f"{lw.qual} :: footprint on `{L}` inside the sentence loop", not bad,
                f"inside the loop the line list may only be touched as {L}[-1], len({L}) and {L}.extend(...): earlier lines are final once "
@@ -217,6 +224,10 @@ def check_sentence_lines(ctx: Ctx) -> None:
             ctx.ob("R-SENT", f"{lw.qual} :: merge into {L}[-1] only when it is short", short,
                    "a sentence may join the previous line only if that line is shorter than the minimum line length", where(lw, mnode))
         for pn in pops:
+            if pn in merges:
+                # lines[-1] += " " + wrapped.pop(0): the removal is part of the merge statement itself
+                ctx.ob("R-LOSSLESS-L4", f"{lw.qual} :: pop(0) paired with the merge", True, "removed and appended in one statement", where(lw, pn))
+                continue
             edges = must_edges(flow.cfg, h, pn) or set()
             medges = [must_edges(flow.cfg, h, m) or set() for m in merges]
             paired = bool(merges) and any(edges == me for me in medges) and any(flow.cfg.path_avoiding(m, pn, set()) is not None for m in merges)
@@ -473,10 +484,12 @@ def check_indents(ctx: Ctx) -> None:
     ctx.require("R-LOSSLESS-L8", "line wrapper decorators", len(decos), 1)
     for fac, w in decos:
         flow = prog.flow(w)
-        p_text, p_init, p_sub = w.params[0], w.params[1], w.params[2]
+        wp = [p for p in w.params if not (w.cls is not None and p == w.params[0])]
+        p_text, p_init, p_sub = wp[0], wp[1], wp[2]
+        is_base_call = base_call_predicate(prog, fac, w)
         n_calls = 0
         for n, c in flow.all_calls():
-            if isinstance(c.func, ast.Name) and c.func.id == fac.params[0] and len(c.args) == 3:
+            if is_base_call(c) and len(c.args) == 3:
                 n_calls += 1
                 in_loop = any(n in flow.loop_body_nodes(h) for h in flow.cfg.nodes if h.kind == "for")
                 comp = _enclosing_comprehension(c)
@@ -545,11 +558,26 @@ def _first_segment_indent_comp(prog, w: FuncInfo, a1: ast.AST, comp: ast.compreh
         return "INIT" if "init" in roles else ("SUB" if "sub" in roles else None)
 
     al = frozenset({f"init={p_init}", f"sub={p_sub}"})
+    # positional values delivered by the iteration itself: for x, ind in zip(xs, chain([A], repeat(B)))  ->  ind is A first, B later
+    positional: dict[str, tuple[ast.AST, ast.AST]] = {}
+    it = comp.iter
+    flow = prog.flow(w)
+    node = flow.node_of(comp.iter)
+    if isinstance(it, ast.Call) and isinstance(it.func, ast.Name) and it.func.id == "zip" and isinstance(comp.target, ast.Tuple) \
+            and len(comp.target.elts) == len(it.args):
+        for tgt, src in zip(comp.target.elts, it.args):
+            src_e = expand_expr(prog, w, src, node, strict=False) if node is not None else src
+            if isinstance(tgt, ast.Name) and isinstance(src_e, ast.Call) and isinstance(src_e.func, ast.Name) and src_e.func.id == "chain" \
+                    and len(src_e.args) == 2 and isinstance(src_e.args[0], (ast.List, ast.Tuple)) and len(src_e.args[0].elts) == 1 \
+                    and isinstance(src_e.args[1], ast.Call) and isinstance(src_e.args[1].func, ast.Name) and src_e.args[1].func.id == "repeat" \
+                    and len(src_e.args[1].args) == 1:
+                positional[tgt.id] = (src_e.args[0].elts[0], src_e.args[1].args[0])
     got: dict[bool, set] = {}
     for first in (True, False):
         fa = facts.first_atom(first)
         dec = Decider(prog, lambda leaf, _al, fa=fa: fa(leaf), value_leaf=value_leaf)
-        got[first] = set(dec.ev(w, a1, {}, {}, al, 0))
+        env = {name: dec.ev(w, (a if first else b), {}, {}, al, 0) for name, (a, b) in positional.items()}
+        got[first] = set(dec.ev(w, a1, env, {}, al, 0))
     ok = got[True] == {"INIT"} and got[False] == {"SUB"} and not comp.ifs
     return ok, f"first segment gets {sorted(map(str, got[True]))}, later segments get {sorted(map(str, got[False]))}"
 
